@@ -4,7 +4,7 @@ import (
 	"fmt"
 	"testing"
 
-	"golang.org/x/tools/go/ssa"
+	"trzszlint/xssa"
 )
 
 func TestDebugIDs(t *testing.T) {
